@@ -37,7 +37,7 @@ CfgOf(e) ==
   [place |-> [c \in Checks |-> ToSet(e.place[c])],
    verd  |-> [c \in Checks |-> [s \in Stages |-> e.verd[c][s]]],
    only1 |-> ToSet(e.only1), route |-> e.route, path |-> e.path, dmarc |-> e.dmarc,
-   kind |-> e.kind, mod |-> e.mod, mfail |-> ToSet(e.mfail), from |-> "addr", nn |-> 0, cells |-> {}, fixed |-> TRUE]
+   kind |-> e.kind, mod |-> e.mod, mfail |-> ToSet(e.mfail), from |-> "addr", nafin |-> e.nafin, nn |-> 0, cells |-> {}, fixed |-> TRUE]
 
 TInit ==
   /\ InitWith(RemoteCfg)
@@ -68,7 +68,7 @@ C_Call == /\ IsEv("CheckCall") /\ run.st = "grp" /\ Ev.c \in run.pend
 C_Mod  == /\ IsEv("ModCall") /\ run.st = "mod" /\ Ev.r = run.r /\ Ev.blk = RouteOf(cfg, run.r)
           /\ Ev.res = (IF run.r \in cfg.mfail THEN "err" ELSE "ok")
           /\ Mod
-C_Rel  == /\ IsEv("TgtCall") /\ Ev.tgt = "Q1" /\ Ev.op = "relay" /\ Ev.res = "ok" /\ Ev.q = metaQ /\ Relay
+C_Rel  == /\ IsEv("TgtCall") /\ Ev.tgt = "Q1" /\ Ev.op = "relay" /\ Ev.res = (IF metaQ THEN "perm" ELSE "ok") /\ Ev.q = metaQ /\ Relay
 C_Tgt  == /\ IsEv("TgtCall") /\ cfg.kind \in {"pipe", "rpipe", "qpipe"} /\ run.st = "tgt"
           /\ \E x \in run.tq :
                /\ x.t = Ev.tgt /\ x.op = Ev.op /\ Ev.res = TgtRes(x) /\ Ev.q = metaQ
